@@ -34,6 +34,10 @@ import (
 // ErrAsyncNoSpace is returned when an write queue full if not writeForever flags.
 var ErrAsyncNoSpace = errors.New("async write queue is full")
 
+// ErrChannelClosed is reported by write calls on a channel that was closed
+// without an error (Close(nil)) or whose context has ended.
+var ErrChannelClosed = errors.New("channel closed")
+
 // Channel is defines a server-side-channel & client-side-channel
 type Channel interface {
 	// ID channel id
@@ -160,8 +164,23 @@ type channel struct {
 	untilWrite     bool
 	closed         int32
 	running        int32
-	closeErr       error
-	writeLock      sync.Mutex // for sync write
+	closeErr       atomic.Value // closeReason, stored by Close before the transport is closed
+	writeLock      sync.Mutex   // for sync write
+}
+
+// closeReason wraps the close error so that atomic.Value always stores one concrete type.
+type closeReason struct{ err error }
+
+// closedErr returns the error write calls report once the channel is closed
+// (or closing) or its context has ended, and nil while the channel is open.
+func (c *channel) closedErr() error {
+	if 0 == atomic.LoadInt32(&c.closed) && nil == c.ctx.Err() {
+		return nil
+	}
+	if reason, ok := c.closeErr.Load().(closeReason); ok && nil != reason.err {
+		return reason.err
+	}
+	return ErrChannelClosed
 }
 
 // ID get channel id
@@ -171,11 +190,8 @@ func (c *channel) ID() int64 {
 
 // Write a message through the Pipeline
 func (c *channel) Write(message Message) error {
-	if !c.IsActive() {
-		select {
-		case <-c.ctx.Done():
-			return c.closeErr
-		}
+	if err := c.closedErr(); nil != err {
+		return err
 	}
 
 	c.invokeMethod(func() {
@@ -204,7 +220,7 @@ func (c *channel) Close(err error) {
 			}
 		}
 
-		c.closeErr = err
+		c.closeErr.Store(closeReason{err})
 		c.transport.Close()
 		c.cancel()
 
@@ -216,8 +232,8 @@ func (c *channel) Close(err error) {
 
 // Writev to write [][]byte for optimize syscall
 func (c *channel) Writev(p [][]byte) (n int64, err error) {
-	if nil != c.closeErr {
-		return 0, c.closeErr
+	if err = c.closedErr(); nil != err {
+		return 0, err
 	}
 
 	// enable async write
@@ -242,6 +258,10 @@ func (c *channel) Write1(p []byte) (n int, err error) {
 // CtxWrite1 channels with asynchronous write enabled, writes will block until the write is successfully sent to the queue or times out.
 // for synchronous write channels, SetDeadline will be called to ensure that the blocking write operation is interrupted after a timeout.
 func (c *channel) CtxWrite1(ctx context.Context, p []byte) (n int, err error) {
+	if err = c.closedErr(); nil != err {
+		return 0, err
+	}
+
 	// enable async write
 	if nil != c.writeQueue {
 		wn, err := c.asyncWrite(ctx, p, true)
@@ -269,6 +289,10 @@ func (c *channel) CtxWrite1(ctx context.Context, p []byte) (n int, err error) {
 // CtxWritev channels with asynchronous write enabled, writes will block until the write is successfully sent to the queue or times out.
 // for synchronous write channels, SetDeadline will be called to ensure that the blocking write operation is interrupted after a timeout.
 func (c *channel) CtxWritev(ctx context.Context, pv [][]byte) (n int64, err error) {
+	if err = c.closedErr(); nil != err {
+		return 0, err
+	}
+
 	// enable async write
 	if nil != c.writeQueue {
 		wn, err := c.asyncWritev(ctx, pv)
@@ -296,8 +320,8 @@ func (c *channel) CtxWritev(ctx context.Context, pv [][]byte) (n int64, err erro
 // ReadFrom reads data from r until EOF or error.
 // The return value n is the number of bytes read.
 func (c *channel) ReadFrom(r io.Reader) (n int64, err error) {
-	if nil != c.closeErr {
-		return 0, c.closeErr
+	if err = c.closedErr(); nil != err {
+		return 0, err
 	}
 
 	const MinRead = 1024
@@ -338,8 +362,8 @@ func (c *channel) Writer() io.Writer {
 }
 
 func (c *channel) write1(p []byte, clone bool) (n int, err error) {
-	if nil != c.closeErr {
-		return 0, c.closeErr
+	if err = c.closedErr(); nil != err {
+		return 0, err
 	}
 
 	// enable async write
@@ -380,7 +404,7 @@ func (c *channel) asyncWrite(ctx context.Context, p []byte, clone bool) (int64, 
 		case <-ctx.Done():
 			return 0, ctx.Err()
 		case <-c.ctx.Done():
-			return 0, c.closeErr
+			return 0, c.closedErr()
 		case c.writeQueue <- packet:
 			// write queue
 		}
@@ -389,7 +413,7 @@ func (c *channel) asyncWrite(ctx context.Context, p []byte, clone bool) (int64, 
 		case <-ctx.Done():
 			return 0, ctx.Err()
 		case <-c.ctx.Done():
-			return 0, c.closeErr
+			return 0, c.closedErr()
 		case c.writeQueue <- packet:
 			// write queue
 		default:
@@ -429,7 +453,7 @@ func (c *channel) asyncWritev(ctx context.Context, p [][]byte) (int64, error) {
 		case <-ctx.Done():
 			return 0, ctx.Err()
 		case <-c.ctx.Done():
-			return 0, c.closeErr
+			return 0, c.closedErr()
 		case c.writeQueue <- packet:
 			// write queue
 		}
@@ -438,7 +462,7 @@ func (c *channel) asyncWritev(ctx context.Context, p [][]byte) (int64, error) {
 		case <-ctx.Done():
 			return 0, ctx.Err()
 		case <-c.ctx.Done():
-			return 0, c.closeErr
+			return 0, c.closedErr()
 		case c.writeQueue <- packet:
 			// write queue
 		default:
